@@ -131,7 +131,7 @@ public:
         for (int k = 0; k < ncalls; k++) {
             Json o = Json::object();
             o["iters"] = w.range(0, 6);
-            o["edit"] = k + 1 < ncalls ? w.pick<std::string>({"none", "none", "clearCache", "clearBest", "clearBest", "clearBest+clearCache", "setPositions+clearCache", "setBest+clearCache", "setVelocities"}) : std::string("none");
+            o["edit"] = k + 1 < ncalls ? w.pick<std::string>({"none", "none", "clearCache", "clearBest", "clearBest", "clearBest+clearCache", "setPositions+clearCache", "setBest+clearCache", "setVelocities", "setPositions", "setBest"}) : std::string("none");
             o["edit_seed"] = (long long)(w.next() >> 1);
             ops.push(o);
         }
@@ -252,12 +252,15 @@ public:
         else if (edit == "setPositions+clearCache") {
             std::vector<double> pos(np * d); for (auto &v : pos) v = r.uniform(-1.5, 1.5);
             S.s->setParticlePositions(pos); S.s->clearCache();
-        } else if (edit == "setBest+clearCache") {
+        } else if (edit == "setPositions") { // same objective, so the documentation does not ask for clearCache()
+            std::vector<double> pos(np * d); for (auto &v : pos) v = r.uniform(-1.5, 1.5);
+            S.s->setParticlePositions(pos);
+        } else if (edit == "setBest+clearCache" || edit == "setBest") {
             std::vector<double> b(( np + 1) * d); for (auto &v : b) v = r.uniform(-1.5, 1.5);
             // keep the manual input self-consistent: the swarm strip is the best in-domain personal best (if any)
             { int arg = -1; double mn = 0; for (size_t i = 0; i < np; i++) if (e.dom(&b[i * d])) { double f = e.obj(&b[i * d]); if (arg < 0 || f < mn) { arg = (int)i; mn = f; } }
               if (arg >= 0) std::copy_n(b.begin() + arg * d, d, b.begin() + np * d); }
-            S.s->setBestParticlePositions(b); S.s->clearCache();
+            S.s->setBestParticlePositions(b); if (edit == "setBest+clearCache") S.s->clearCache();
             S.bests_manual = true;
             for (auto &v : S.visited) v.clear(); // the user replaced every best: the record restarts from what gets evaluated
         } else if (edit == "setVelocities") {
